@@ -252,6 +252,41 @@ var argKindKeywords = map[string][]string{
 	"range": {"range"}, "length": {"length"}, "id2": {"prefix"},
 }
 
+// token alphabets per argument kind: every sequence of up to three (thorough: four) tokens is tried
+var argAlphabets = map[string][]string{
+	"range":   {"1", "0", "5", ".", "..", "-", "|", " ", "min", "max", "+", "e"},
+	"length":  {"1", "0", "5", ".", "..", "-", "|", " ", "min", "max", "+"},
+	"date":    {"2020", "-", "01", "12", "13", "00", "31", "32", "1", "a", " "},
+	"uint":    {"0", "1", "9", "-", "+", " ", ".", "x"},
+	"int":     {"0", "1", "9", "-", "+", " ", ".", "x"},
+	"max":     {"0", "1", "9", "-", "+", " ", "unbounded", "x"},
+	"fracdig": {"0", "1", "8", "9", "-", "+", " ", "."},
+	"id":      {"a", "1", "-", ".", "_", ":", "xml", "X", "é", " "},
+	"idref":   {"a", "1", "-", ".", ":", "p", "xml", " "},
+	"key":     {"a", "b", " ", ":", "p", "1", "/", "\t"},
+	"unique":  {"a", "b", " ", ":", "p", "1", "/"},
+	"absschema": {"a", "/", ":", "p", "1", " "},
+	"descschema": {"a", "/", ":", "p", "1", " "},
+	"augment": {"a", "/", ":", "p", "1", " "},
+	"bool":    {"true", "false", "t", "T", " ", "1"},
+}
+
+func enumArgs(alpha []string, maxLen int, emit func(string)) {
+	var rec func(prefix string, depth int)
+	rec = func(prefix string, depth int) {
+		if depth > 0 {
+			emit(prefix)
+		}
+		if depth == maxLen {
+			return
+		}
+		for _, t := range alpha {
+			rec(prefix+t, depth+1)
+		}
+	}
+	rec("", 0)
+}
+
 func genYArgs(r *Rng, tier string, n int, emit func(Case)) {
 	kinds := make([]string, 0, len(argKindKeywords))
 	for k := range argKindKeywords {
@@ -271,6 +306,21 @@ func genYArgs(r *Rng, tier string, n int, emit func(Case)) {
 				nameCounter = 0
 				text := stmtTextWithArg(kw, a)
 				emit(mkCheckCase(text, Case{"argkind": kind, "kw": kw, "arg": a}))
+			}
+			if alpha, ok := argAlphabets[kind]; ok && kw == argKindKeywords[kind][0] {
+				maxLen := 3
+				if tier == "thorough" {
+					maxLen = 4
+				}
+				seen := map[string]bool{}
+				enumArgs(alpha, maxLen, func(a string) {
+					if seen[a] {
+						return
+					}
+					seen[a] = true
+					nameCounter = 0
+					emit(mkCheckCase(stmtTextWithArg(kw, a), Case{"argkind": kind, "kw": kw, "arg": a}))
+				})
 			}
 			// random mutations of valid probes
 			for i := 0; i < n/200+1; i++ {
